@@ -281,6 +281,17 @@ def near_names(key, rng, n):
             s = "_" + s
         if s and s.lower() not in ("survey", "choices", "external_choices", "osm"):
             out.add(s)
+    # names that repeat a piece of the key (a stutter): far from the key by true edit distance although head and tail both match it
+    for _ in range(max(20, n // 6)):
+        a = rng.randrange(0, len(key) - 1)
+        b = rng.randrange(a + 1, len(key) + 1)
+        chunk = key[a:b] * rng.choice([1, 1, 2])
+        pos = rng.choice([a, b, 0, len(key), rng.randrange(len(key) + 1)])
+        s = key[:pos] + chunk + key[pos:]
+        if rng.random() < 0.3:
+            s = s + key[-1] * rng.randint(1, 3)
+        if s.lower() not in ("survey", "choices", "external_choices", "osm", key):
+            out.add(s)
     return sorted(out)
 
 
